@@ -180,6 +180,10 @@ func (n *lazyNode) tryAry() bool {
 }
 
 func (n *lazyNode) equal(o *lazyNode) bool {
+	if n == nil || o == nil {
+		return n == nil && o == nil
+	}
+
 	if n.which == eRaw {
 		if !n.tryDoc() && !n.tryAry() {
 			if o.which != eRaw {
